@@ -673,7 +673,7 @@ def shape_crosscheck(log, t: Tally):
                     if isinstance(x, dict) and _s(k) in ("client_conn", "server_conn", "request", "response"):
                         out |= keys(x, p + _s(k) + ".")
                 return out
-            a, b = keys(mine[0]), keys(rec)
+            a, b = keys(mine[0]) - {"backup"}, keys(rec) - {"backup"}  # `backup` is optional in every version and dropped by down()
             if _g(rec, "response") is None:
                 a = {k for k in a if not k.startswith("response.")}
             if a != b:
